@@ -594,10 +594,13 @@ def r_optorder(P, chk):
     rid = "R-OPTORDER"
     chk.rule(rid, "in main, no plain assignment to the extensions word can run after an `|=` / `&=` update of it (the assignment "
                   "would discard the option that update recorded)")
-    main = P.func("main", "main.c")
-    pos = main.cfg.positions()
     n = 0
-    for var in ("extensions",):
+    for main in P.units["main.c"].funcs.values():
+      pos = main.cfg.positions()
+      # the option word: whatever variable of this function receives `|= EXT_...` updates
+      vars_ = sorted({key(x["c"][0]) for x in main.walk() if x["k"] == "CompoundAssignOperator" and x["op"] == "|=" and
+                      any(y["k"] == "DeclRefExpr" and y.get("dk") == "Enum" and y["n"].startswith("EXT_") for y in walk(x["c"][1]))})
+      for var in vars_:
         plain = [x for x in main.walk() if x["k"] == "BinaryOperator" and x["op"] == "=" and key(x["c"][0]) == var and x.get("i") in pos]
         upd = [x for x in main.walk() if x["k"] == "CompoundAssignOperator" and key(x["c"][0]) == var and x.get("i") in pos]
         n += len(plain)
